@@ -105,6 +105,11 @@ def PMnvol_MEEM(
         0.85 + (1.15 - 0.85) * lin_vary_alt,
         np.where(alt_rate == 0, 0.95, 0.12),
     )
+    # Well below the 3000 m reference level of a low flight the linear
+    # variation extrapolates to negative values, i.e. to a compressor exit
+    # pressure below the inlet pressure (and NaNs further down): the
+    # compressor pressure ratio cannot fall below one.
+    pressure_coef = np.maximum(pressure_coef, 0.0)
 
     # convert ambient -> *total* T/P first
     Tt_amb = Tamb_cruise * (1 + (kappa - 1) / 2 * machFlight**2)
